@@ -115,6 +115,8 @@ def check_obligation(col, ctx, name, goal, inputs, replay, known=None, descr=Non
     """
     known = known or {}
     col.d["obligations"] += 1
+    if groups_first is None and any(g not in sc.LIGHT_GROUPS for _, _, g in ctx.axioms):
+        groups_first = sc.LIGHT_GROUPS
     goal = _simplify_goal(ctx, goal)
     neg = [z3.Not(goal)] + list(extra_assume)
     outside = neg + [z3.Not(p) for p in known.values()]
@@ -126,6 +128,21 @@ def check_obligation(col, ctx, name, goal, inputs, replay, known=None, descr=Non
     if r == "sat":
         # counterexample under the sliced constraint set: confirm with all
         r, m = ctx.solve(outside, kind="goal-full", full=True, timeout_ms=timeout_ms)
+    if r == "unknown":
+        # bug-hunting pass (DESIGN 2.5 item 7): the same query with the inputs pinned to generic rational
+        # values is far easier; a model of the pinned query is a model of the obligation's negation.
+        # (unsat of a pinned query proves nothing and is ignored.)
+        pins = ctx.memo.get("pins")
+        if callable(pins):
+            pins = pins(ctx)
+        for pin in (pins or []):
+            # consequences of the SVD factorisation (group svdinv) are dropped here: with pinned factors the
+            # factorisation itself is linear; the replay on the real code is the judge of the candidate
+            rp, mp = ctx.solve(outside + list(pin), kind="bughunt", full=True, timeout_ms=15000,
+                               groups=("def", "cons", "svdfac"))
+            if rp == "sat":
+                r, m = rp, mp
+                break
     verdict_outside = r
     if r == "unknown":
         col.d["inconclusive"].append(dict(ob=name, why="solver unknown/time-out", descr=descr))
@@ -175,6 +192,8 @@ def check_obligations(col, ctx, goals, inputs, replay, known=None, descr=None, t
     if not goals:
         return True
     known = known or {}
+    if groups_first is None and any(g not in sc.LIGHT_GROUPS for _, _, g in ctx.axioms):
+        groups_first = sc.LIGHT_GROUPS
     goals = {k: _simplify_goal(ctx, v) for k, v in goals.items()}
     if all(z3.is_true(v) for v in goals.values()) and not known:
         # every clause reduced to True by certified rewriting: one trivial solver query for the record
@@ -277,6 +296,8 @@ def reach_check(col, ctx, what="path", pins=None):
     Cheap first: with the inputs pinned to generic rational values (a sat there
     is a sat); then the unpinned complete query; then the sliced one."""
     r = "unknown"
+    if callable(pins):
+        pins = pins(ctx)
     for pin in (pins or []):
         r, _ = ctx.solve(list(pin), kind="reach", full=True, timeout_ms=5000)
         if r == "sat":
@@ -290,22 +311,21 @@ def reach_check(col, ctx, what="path", pins=None):
     if r == "sat":
         col.d["reach_sat"] += 1
         return True
-    if r == "unknown":
-        col.d["inconclusive"].append(dict(ob="reachability of " + what, why="unknown"))
-    else:
-        col.d["harness_errors"].append(dict(ob="reachability of " + what, why="path not satisfiable"))
-    return False
+    return r
 
 
 def explore_case(col, fn, assumptions, on_ok=None, on_exc=None, timeout_ms=20000,
-                 max_paths=4000, seed=0, reach_every=True, pins=None):
+                 max_paths=4000, seed=0, reach_every=True, pins=None, must_reach=()):
     """explore fn under assumptions; call on_ok(pathresult) / on_exc(pathresult)
     while the path context is current."""
     stats = sc.Stats()
     reached = set()
+    tried = {}
+    _pins = pins
 
     def on_path(pr):
         col.outcome(pr.status)
+        pr.ctx.memo["pins"] = _pins
         if pr.status == "notenc":
             col.d["inconclusive"].append(dict(ob="path", why="NotEncodable: %s" % pr.exc))
             return
@@ -313,9 +333,12 @@ def explore_case(col, fn, assumptions, on_ok=None, on_exc=None, timeout_ms=20000
             col.d["inconclusive"].append(dict(ob="path", why=str(pr.exc)))
             return
         cls = pr.status
-        if cls not in reached:
-            if reach_check(col, pr.ctx, cls, pins):
+        if cls not in reached and len(tried.get(cls, [])) < 6:
+            rr = reach_check(col, pr.ctx, cls, pins)
+            if rr is True:
                 reached.add(cls)
+            else:
+                tried.setdefault(cls, []).append(rr)
         if pr.status == "ok":
             if on_ok:
                 on_ok(pr)
@@ -333,6 +356,24 @@ def explore_case(col, fn, assumptions, on_ok=None, on_exc=None, timeout_ms=20000
     col.d["queries"] += stats.queries
     col.d["solver_s"] += stats.solver_s
     col.d["distinct_paths"] += len({tuple(p.decisions) for p in res})
+    # vacuity guard: the exploration must contain at least one path shown satisfiable end to end
+    # (paths visited under the light abstraction may be infeasible; that is sound and expected)
+    if res and not reached:
+        if any(x == "unknown" for v in tried.values() for x in v):
+            col.d["inconclusive"].append(dict(ob="reachability", why="no path could be shown satisfiable (solver unknown)"))
+        else:
+            col.d["harness_errors"].append(dict(ob="reachability", why="no explored path is satisfiable: vacuous harness"))
+    for cls, v in tried.items():
+        if cls not in reached:
+            col.note("outcome class %s: not shown reachable (%s)" % (cls, ",".join(map(str, v))))
+    for cls in must_reach:
+        if cls not in reached:
+            why = "outcome class %r, on which this case's claim rests, was not shown reachable (%s)" % (
+                cls, ",".join(map(str, tried.get(cls, ["no such path"]))))
+            if any(x == "unknown" for x in tried.get(cls, [])):
+                col.d["inconclusive"].append(dict(ob="reachability", why=why))
+            else:
+                col.d["harness_errors"].append(dict(ob="reachability", why=why))
     return res
 
 
